@@ -6,8 +6,13 @@ package main
 
 import (
 	"strings"
-	"unicode/utf8"
 )
+
+// c06AlphabetU: key values around well-formed / ill-formed UTF-8. Since b1856f7 the metric label values are the key
+// values without their ill-formed bytes, so different tuples over this alphabet have equal label values
+// ("a\xff" / "a\xfe" / "a"; "\xff" / "\xc3" / ""), while pipelines, ids, tags and queue directories must stay apart.
+var c06AlphabetU = []string{"", "a", "\xff", "a\xff", "a\xfe", "\xffa", "\xc3\xa9", "\xc3", "\xef\xbf\xbd", "a\xef\xbf\xbd\x80",
+	"\xed\xa0\x80", "\xc0\x80", "\xe2\x82", "\xf0\x9f\x98\x80", "\xf4\x90\x80\x80"}
 
 var c06Alphabet = []string{"", "a", "b", "ab", ",", "a,b", "/", "\x00"}
 
@@ -89,14 +94,7 @@ func (g *Gen) c06E2E(cls, tmpl string, names []string, tuples [][]string, mode i
 
 func (g *Gen) c06Key(cls string, n int, tuples [][]string) {
 	g.Count("key:" + cls)
-	withCounter := 1
-	for _, t := range tuples {
-		for _, k := range t {
-			if !utf8.ValidString(k) {
-				withCounter = 0
-			}
-		}
-	}
+	withCounter := 1 // (was 0 for ill-formed UTF-8 until b1856f7: SelectMetricKeySet does not break the registry any more)
 	g.Case(6, c06B(c06Flat(tuples)...), []int64{int64(n), int64(withCounter)})
 }
 
@@ -305,6 +303,14 @@ func c06Gen(g *Gen) {
 	g.c06Disk("probe", "$k0", n1, [][]string{{"a/b"}, {"a_b"}, {"a\x00b"}}, 0o022)
 	g.c06Metric("probe", n2, [][]string{{"ab", "c"}, {"a", "bc"}, {"ab", "c"}})
 	g.c06Metric("probe", n2, [][]string{{"", "x"}, {"x", ""}})
+	// the witnesses of the label limit: different key sets, equal label values
+	g.c06Route("probe-utf8", "$k0", n1, nil, [][]string{{"\xff"}, {"\xfe"}, {"\xff"}}, 1, nil)
+	g.c06Route("probe-utf8", "t.$k0", n1, []string{"a\xfe", "a"}, [][]string{{"a\xff"}, {"a\xfe"}, {"a"}, {"a\xff"}}, 2, []int{0, 1, 0, 1})
+	g.c06Disk("probe-utf8", "$k0", n1, [][]string{{"a\xff"}, {"a\xfe"}, {"a"}, {"a\xff"}}, 0o022)
+	g.c06Metric("probe-utf8", n1, [][]string{{"a\xff"}, {"a\xfe"}, {"a"}, {"a\xff"}, {"\xef\xbf\xbd\xff"}})
+	g.c06Metric("probe-utf8", n2, [][]string{{"a\xff", "b"}, {"a", "\xc3b"}, {"a", "b"}, {"a\xff", "b"}})
+	g.c06E2E("probe-utf8", "$k0", n1, [][]string{{"a\xff"}, {"a\xfe"}, {"a"}, {"a\xff"}}, 0)
+	g.c06E2E("probe-utf8", "$k0", n1, [][]string{{"a\xff"}, {"a\xfe"}, {"a"}, {"a\xff"}}, 1)
 
 	// ------------------------------------------------------------------ exhaustive over the alphabet
 	for n := 1; n <= 3; n++ {
@@ -378,16 +384,45 @@ func c06Gen(g *Gen) {
 			g.c06Route("alphabet-b", c06Templates(n)[0], names, nil, all, 1, nil)
 			sh := g.c06Shuffle(append(append([][]string{}, all...), all...))
 			g.c06Route("alphabet-b", c06Templates(n)[0], names, nil, sh, 2, g.c06RandSinks(len(sh), 2))
-			allM := c06AllTuples(n, []string{"", "\x00", "\x01", "\x01a", "a", "\x02", "\x7f", "\x02a"}) // label values must be valid UTF-8
-			g.c06Metric("alphabet-b", names, allM)
+			g.c06Metric("alphabet-b", names, all) // with "\x80": ill-formed key bytes are removed from the label values
+			g.c06Metric("alphabet-b", names, c06AllTuples(n, []string{"", "\x00", "\x01", "\x01a", "a", "\x02", "\x7f", "\x02a"}))
 			for i, p := range c06CandidatePairs(all) {
 				if n == 3 && i%5 != 0 && !g.Thorough() {
 					continue
 				}
 				g.c06Route("alphabet-b-pairs", c06Templates(n)[0], names, nil, [][]string{p[0], p[1], p[0]}, 1, nil)
-				if !strings.Contains(strings.Join(p[0], "")+strings.Join(p[1], ""), "\x80") {
-					g.c06Metric("alphabet-b-pairs", names, [][]string{p[0], p[1], p[1]})
+				g.c06Metric("alphabet-b-pairs", names, [][]string{p[0], p[1], p[1]})
+			}
+		}
+	}
+	// ------------------------------------------------------------------ a third alphabet: well-formed and ill-formed UTF-8 (label values collide)
+	for n := 1; n <= 2; n++ {
+		names := c06DefaultNames[:n]
+		all := c06AllTuples(n, c06AlphabetU)
+		tmpl := c06Templates(n)[0]
+		g.c06Route("alphabet-utf8", tmpl, names, nil, all, 1, nil)
+		sh := g.c06Shuffle(append(append([][]string{}, all...), all...))
+		g.c06Route("alphabet-utf8", tmpl, names, nil, sh, 3, g.c06RandSinks(len(sh), 3))
+		g.c06Disk("alphabet-utf8", tmpl, names, all, 0o022)
+		g.c06Metric("alphabet-utf8", names, all)
+		g.c06Metric("alphabet-utf8", names, g.c06Shuffle(append(append([][]string{}, all...), all...)))
+		g.c06Key("alphabet-utf8", n, all)
+		if n == 1 || g.Thorough() {
+			g.c06E2E("alphabet-utf8", tmpl, names, all, 0)
+			g.c06E2E("alphabet-utf8", tmpl, names, g.c06Shuffle(append(append([][]string{}, all...), all...)), 1)
+		}
+		if n == 1 {
+			for _, a := range all {
+				for _, b := range all {
+					g.c06Route("alphabet-utf8-pairs", tmpl, names, []string{a[0]}, [][]string{a, b, a}, 1, nil)
+					g.c06Metric("alphabet-utf8-pairs", names, [][]string{a, b, a})
+					if g.Thorough() || len(a[0])+len(b[0]) <= 4 {
+						g.c06Disk("alphabet-utf8-pairs", tmpl, names, [][]string{a, b}, 0o022)
+					}
 				}
+			}
+			for mode := 0; mode <= 1; mode++ {
+				g.c06Pooled("alphabet-utf8", "t.$app", []string{"app"}, append(append([][]string{}, all...), g.c06Shuffle(all)...), nil, mode)
 			}
 		}
 	}
@@ -710,7 +745,7 @@ func c06Gen(g *Gen) {
 	for i := 0; i < g.Pick(600, 20000); i++ {
 		n := r.Range(1, 3)
 		names := c06DefaultNames[:n]
-		group := g.c06RandGroup(n, r.Range(2, 8), true)
+		group := g.c06RandGroup(n, r.Range(2, 8), r.Bool()) // half of the groups with arbitrary bytes (ill-formed UTF-8)
 		recs := g.c06Shuffle(append(append([][]string{}, group...), group[:r.Intn(len(group))]...))
 		g.c06Metric("random", names, recs)
 	}
